@@ -284,6 +284,10 @@ def run_threads(job, res):
     # tables share between all schemas: config, battery level, percentages, binary values)
     hot = [(f"1;255;3;0;6;{p}", v) for v in spec.VERSIONS for p in ("I", "M")] + [("1;255;3;0;0;55", v) for v in spec.VERSIONS] \
         + [("1;1;1;0;2;1", v) for v in spec.VERSIONS] + [("1;1;1;0;3;50", v) for v in spec.VERSIONS]
+    # ... and lines those same rules must refuse: a check that is skipped while another thread is rebuilding the shared
+    # rule shows as an invalid line accepted
+    hot += [(f"1;255;3;0;0;{p}", v) for v in spec.VERSIONS for p in ("250", "-5")] + [("1;1;1;0;3;250", v) for v in spec.VERSIONS] \
+        + [("1;1;1;0;2;2", v) for v in spec.VERSIONS] + [("1;255;3;0;6;X", v) for v in spec.VERSIONS]
     cases += hot * 25
     rng.shuffle(cases)
     base = {}
